@@ -469,7 +469,7 @@ func run(t *testing.T, sc *Scenario) (issues []Issue, st Stats, ev []Event, orde
 	return issues, st, ev, sb.String()
 }
 
-var goForms = []string{"go infinite", "go depth 5", "go nodes 1000", "go movetime 40", "go wtime 1000 btime 1000 winc 10 binc 10", "go ponder wtime 900 btime 900", "go ponder"}
+var goForms = []string{"go infinite", "go depth 5", "go nodes 1000", "go movetime 40", "go wtime 1000 btime 1000 winc 10 binc 10", "go ponder wtime 900 btime 900", "go ponder", "go ponder nodes 777", "go ponder movetime 30"}
 
 // randomScenario is the random schedule explorer: a random walk over the control actions, with
 // the command choice restricted to what a conforming GUI may send in the current state.
